@@ -625,6 +625,32 @@ class DefaultCodec(Codec):
         ) -> Partition:
             return DefaultCodec.PicklePartition(self._codec, data_source, key)
 
+        def _inherit(
+            self,
+            data_source: DataSource,
+            src_data_source: DataSource,
+            entry: _ResultTypeAndContentKey,
+        ) -> Optional[VersionedDataSourceKey]:
+            """
+            Keep an entry that comes from a parent, returning the key it has in `data_source`.
+            Normally the entry is kept by reference. If the parent was stored somewhere else
+            (e.g. by a function of another cluster), the reference could not be resolved in
+            `data_source`, so the value itself is stored there.
+
+            """
+            content_key = entry.content_key
+            if (
+                content_key is not None
+                and src_data_source is not data_source
+                and not data_source.exists_versioned(content_key)
+            ):
+                value = self._codec.load(entry.result_type, src_data_source, content_key)
+                return self._codec.store(entry.result_type, data_source, None, value)
+            # Mark a reference to all values that come from parents. This is for storage
+            # backends that do reference counting.
+            data_source.reference(src_data_source, content_key, content_key)
+            return content_key
+
         def store(
             self, data_source: DataSource, key_override: str, obj: Partition
         ) -> VersionedDataSourceKey:
@@ -659,15 +685,9 @@ class DefaultCodec(Codec):
                         "a PicklePartition or has never been serialized"
                     )
                 for k, v in parent_index.items():
-                    # Mark a reference to all values that come from parents. This is for storage
-                    # backends that do reference counting.
-                    data_source.reference(
-                        parent_data_source, v.content_key, v.content_key
-                    )
-
                     index[k] = _ResultTypeAndContentKey(
                         result_type=v.result_type,
-                        content_key=v.content_key,
+                        content_key=self._inherit(data_source, parent_data_source, v),
                         from_parent=True,
                     )
 
@@ -678,10 +698,11 @@ class DefaultCodec(Codec):
                 for k, v in obj._index.items():
                     if v.from_parent:
                         # noinspection PyProtectedMember
-                        data_source.reference(
-                            obj._data_source, v.content_key, v.content_key
+                        index[k] = _ResultTypeAndContentKey(
+                            result_type=v.result_type,
+                            content_key=self._inherit(data_source, obj._data_source, v),
+                            from_parent=True,
                         )
-                        index[k] = v
 
             # Layer current keys on top of parent's keys
             output_keys = dict()
